@@ -8,7 +8,7 @@
    it is on explicit fuel (Err out_of_fuel when exhausted; type_depth bounds
    the fuel needed, see TransformerProofs). *)
 From Coq Require Import List NArith ZArith Bool.
-From Dials Require Import Base.Outcome Base.Runes Reflect.Ty Transform.RType Transform.Manglers.
+From Dials Require Import Base.Outcome Base.Runes Reflect.Ty Transform.RType Transform.MAlias Transform.Manglers.
 Import ListNotations.
 Open Scope N_scope.
 
@@ -221,7 +221,11 @@ Fixpoint rev_layer (m : mangler) (elems : list melem) (lv : list fvt) (offset : 
   | [] => Ok []
   | e :: r =>
       let n := length (me_out e) in
-      if Nat.ltb (length lv) (offset + n) then Panic 2
+      if negb (exported (sfo_name (me_in e))) then
+        (* an unexported field skipped by TranslateType: nothing to unmangle *)
+        rest <- rev_layer m r lv offset ;;
+        Ok ((zero_sf, (TIface, VNil)) :: rest)
+      else if Nat.ltb (length lv) (offset + n) then Panic 2
       else
         nv <- unmangle_field m e (firstn n (skipn offset lv)) ;;
         rest <- rev_layer m r lv (offset + n) ;;
